@@ -243,7 +243,7 @@ def sph_vs_cart(run, specs, fname, env):
     exp = pf.apply_on_axes(a_cart, [W] * nax, nax)
     run.case(("sph-vs-cart", fname) + sig(specs), sample={"op": fname, "relation": "spherical/mixed = T . cartesian", "basis": core.describe_basis(specs)})
     run.count("relation sph-vs-cart " + fname)
-    tol = (1e-6 if fname.startswith("eri") else 1e-9) * max(1e-300, float(np.abs(exp).max()))
+    tol = pf.rel_tol(fname, exp)
     if a.shape != exp.shape or np.abs(a - exp).max() > tol:
         run.violation(f"{fname}: spherical/mixed result is not the Cartesian result contracted with the shells' matrices",
                       {"case": "sph-vs-cart", "function": fname, "basis": core.describe_basis(specs), "signature": {"kind": "sph-vs-cart"}})
@@ -259,7 +259,7 @@ def transform_case(run, specs, fname, env, T):
     exp = pf.apply_on_axes(a, [T] * nax, nax)
     run.case(("transform", fname, T.shape) + sig(specs))
     run.count("relation transform " + fname)
-    tol = (1e-6 if fname.startswith("eri") else 1e-9) * max(1e-300, float(np.abs(exp).max()))
+    tol = pf.rel_tol(fname, exp)
     if at.shape != exp.shape or np.abs(at - exp).max() > tol:
         run.violation(f"{fname}(transform=T) is not T applied to every basis index of the untransformed array (T {T.shape})",
                       {"case": "transform", "function": fname, "basis": core.describe_basis(specs), "T": T.tolist(), "signature": {"kind": "transform"}})
@@ -298,7 +298,7 @@ def convention_case(run, spec, others, fname, env, cart_perm, sph_pat):
     exp = pf.apply_on_axes(a0, [P] * nax, nax)
     run.case(("convention", fname, spec.sph, tuple(cart_perm) if cart_perm else None, tuple(sph) if sph else None) + sig(base_specs))
     run.count("relation convention " + fname)
-    tol = (1e-6 if fname.startswith("eri") else 1e-9) * max(1e-300, float(np.abs(exp).max()))
+    tol = pf.rel_tol(fname, exp)
     if a1.shape != exp.shape or np.abs(a1 - exp).max() > tol:
         run.violation(f"{fname}: a shell reporting its components as cart={cart} sph={sph} does not yield correspondingly permuted/signed outputs",
                       {"case": "convention", "function": fname, "basis": core.describe_basis(base_specs), "cart_perm": cart_perm, "sph": sph,
